@@ -140,6 +140,7 @@ def alphabet(w, h):
     ops.append(["edit", "src", "1" if cur["src"] == "0" else "0"])
     for n in NAMES:
         ops += [["uwrite", n, "U1\n"], ["uwrite", n, "U2 longer\n"], ["ureplace", n, "R\n"], ["rm", n]]
+        ops.append(["uhard", n, "hand"])     # the user's file `hand` hard-linked into the target's place
         # an older file of exactly the size of the generated one (a.x(0) / t(0) plus newline)
         ops.append(["uold", n, "O" * (len(n) + 3) + "\n"])
     return ops
